@@ -1,5 +1,5 @@
 (* C03 -- property theorems only. *)
-From Coq Require Import Reals List ZArith String Bool.
+From Coq Require Import Reals List ZArith String Bool Lra.
 From WNTRV Require Import C01.Model C02.Model C03.Model C03.Proofs C03.Instance C07.Model C07.Mono Gen.BinUnits.
 Import ListNotations.
 
@@ -47,6 +47,18 @@ Theorem C03_unique_common_feature_set_pdd : forall links nodes fixed src (kinds 
   forall z z', solves links nodes fixed src dem_ phi_ (fun _ _ => True) z -> solves links nodes fixed src dem_ phi_ (fun _ _ => True) z' ->
   (forall i, (i < List.length links)%nat -> flow z i = flow z' i) /\ (forall n, anchored links nodes fixed n -> head z n = head z' n).
 Proof. exact unique_flows_common_pdd. Qed.
+(* non-vacuity of the uniqueness theorems: a reservoir (node 0, head 10) feeding a junction (node 1, demand 2) through a throttle valve with
+   r = 1: flow 2, head 10 - 1 * 2 * |2| = 6 *)
+Example C03_solves_inhabited :
+  solves [(0%nat, 1%nat)] [0%nat; 1%nat] (fun n => Nat.eqb n 0) (fun _ => 10%R) (fun _ _ => 2%R) (fun i q => law (nth i [QuadL 1%R] (QuadL 1%R)) q)
+         (fun _ _ => True) {| flow := fun _ => 2%R; head := fun n => if Nat.eqb n 0 then 10%R else 6%R |}
+  /\ law_wf (QuadL 1%R).
+Proof.
+  split; [|simpl; lra]. unfold solves. simpl. repeat split.
+  - intros n [<-|[<-|[]]]; simpl; intros; try discriminate; reflexivity.
+  - intros n [<-|[<-|[]]]; simpl; intros H; try discriminate. unfold netinR; simpl. lra.
+  - destruct i as [|[|i]]; simpl in H; inversion H; subst. simpl. unfold quad_law. rewrite Rabs_pos_eq by lra. lra.
+Qed.
 (* ... except the constant-power pump, whose law has a forward and a reverse branch (refutes uniqueness for such models; the
    reverse branch is what WNTRSimulator sometimes converges to -- recorded finding) *)
 Theorem C03_power_pump_two_branches_refuted : forall P q, (0 < P)%R -> (0 < q)%R ->
